@@ -39,8 +39,10 @@ FoldSum == \A k \in 1..Len(T.dg) :
 
 (* ---- C09: isoelectric points -------------------------------------------------------- *)
 (* piq = <<Qf(pIf-prec), Qf(pIf+prec), Qu(pIu-prec), Qu(pIu+prec), Qf(w0), Qf(w1), Qu(w0), Qu(w1)>> *)
-BracketF == (T.piq[5] > 1 /\ T.piq[6] < -1) => (T.piq[1] >= -1 /\ T.piq[2] <= 1)
-BracketU == (T.piq[7] > 1 /\ T.piq[8] < -1) => (T.piq[3] >= -1 /\ T.piq[4] <= 1)
+(* pis = the exact signs of the same eight charges (0 below 1e-9): the clause is about signs, and a flat curve
+   may stay below the 1e-4 quantisation of piq over a wide pH range *)
+BracketF == (T.pis[5] > 0 /\ T.pis[6] < 0) => (T.pis[1] >= 0 /\ T.pis[2] <= 0)
+BracketU == (T.pis[7] > 0 /\ T.pis[8] < 0) => (T.pis[3] >= 0 /\ T.pis[4] <= 0)
 (* the recorded bisection follows BisectNext (mechanism conformance; diagnostic) *)
 RECURSIVE Follows(_, _, _, _, _)
 Follows(ev, k, lo, hi, ph) ==
